@@ -132,13 +132,14 @@ type request struct {
 	MayFail []string // cache read errors / poisoned cache contents met by this request (the request may fail)
 	Final   string   // "", "final", "final-nocache"
 	Note    []string // the calls and answers behind Faults / MayFail
+	genuine bool     // a cache read of this request returned the true chain for its key
 	cancel  context.CancelFunc
 }
 
 // faultClass groups the fault menu into the classes named in violation signatures.
 func faultClass(how string) string {
 	switch how {
-	case "error", "norows":
+	case "error", "norows", "lost":
 		return "store-error"
 	case "nil", "empty", "truncated", "trailing", "wrongtag":
 		return "unparseable-row"
@@ -185,6 +186,8 @@ type world struct {
 	store      map[string][]byte
 	real       cache.IssuanceChainCache
 	adv        map[string][]byte
+	lost       map[string]bool // rows the store has really lost (fault "lost") and nobody has written again
+	obliged    map[string]bool // lost rows that an accepted submission since had to write again: it met no true cached copy
 	faultsLeft int
 	faultsUsed int
 	viol       func(sig, format string, args ...any)
@@ -302,6 +305,9 @@ func (w *world) menu(ci callInfo) []string {
 			m = append(m, "error", "norows")
 			if v, ok := w.store[string(ci.key)]; ok {
 				m = append(m, "nil", "empty", "truncated", "trailing", "wrongtag")
+				if w.sc.Class == "fault-then-more" {
+					m = append(m, "lost")
+				}
 				if w.sc.Faults == "flip" {
 					if len(v) > 2 {
 						m = append(m, "bitflip-certificate-bytes")
@@ -408,6 +414,7 @@ func (w *world) apply(ci callInfo, how string) result {
 			w.viol("store-row-overwritten", "Add(key %x) replaces a different row", ci.key)
 		} else if !ok {
 			w.store[string(ci.key)] = ci.val
+			delete(w.lost, string(ci.key))
 		}
 		return result{}
 	case "store.Find":
@@ -422,6 +429,12 @@ func (w *world) apply(ci callInfo, how string) result {
 			if !ok {
 				if ci.req != nil {
 					ci.req.Desc += " [unknown hash asked of the store]"
+					// a row the store lost stays unreadable until a submission writes it again; a submission
+					// accepted since without any true cached copy in hand had to do that
+					if w.lost[string(ci.key)] && !w.obliged[string(ci.key)] {
+						ci.req.MayFail = append(ci.req.MayFail, "row-lost")
+						ci.req.Note = append(ci.req.Note, "store.Find=the row was lost earlier")
+					}
 				}
 				return result{err: errNoRows}
 			}
@@ -431,6 +444,12 @@ func (w *world) apply(ci callInfo, how string) result {
 			return result{err: errInjected}
 		case "norows":
 			fault(ci.req, true)
+			return result{err: errNoRows}
+		case "lost":
+			// the row is really gone (rolled back, restored backup): this and later reads find nothing
+			fault(ci.req, true)
+			delete(w.store, string(ci.key))
+			w.lost[string(ci.key)] = true
 			return result{err: errNoRows}
 		default:
 			fault(ci.req, true)
@@ -451,6 +470,9 @@ func (w *world) apply(ci callInfo, how string) result {
 		case "miss":
 		}
 		if v != nil && ci.req != nil {
+			if want, ok := chainByHash[string(ci.key)]; ok && bytes.Equal(want, v) {
+				ci.req.genuine = true
+			}
 			if want, ok := chainByHash[string(ci.key)]; !ok || !bytes.Equal(want, v) {
 				ci.req.MayFail = append(ci.req.MayFail, "poisoned-cache")
 				ci.req.Note = append(ci.req.Note, "cache.Get returns a damaged row written earlier")
@@ -520,7 +542,7 @@ func newCache(kind string) cache.IssuanceChainCache {
 
 func newWorld(sc *scenario, indirect, bubble bool, viol func(sig, format string, args ...any)) *world {
 	w := &world{sc: sc, env: gate.NewEnv(), store: map[string][]byte{}, adv: map[string][]byte{}, viol: viol,
-		be: reflog.New(7), clock: &fe.Clock{T: baseTime}, first: map[string][]byte{}, faultsLeft: sc.MaxFaults, bubble: bubble}
+		be: reflog.New(7), clock: &fe.Clock{T: baseTime}, first: map[string][]byte{}, lost: map[string]bool{}, obliged: map[string]bool{}, faultsLeft: sc.MaxFaults, bubble: bubble}
 	w.real = newCache(sc.Cache)
 	w.be.SetHook(func(method string, req proto.Message, next func() (proto.Message, error)) (proto.Message, error) {
 		rsp, err := next()
@@ -625,6 +647,13 @@ func (w *world) issue(r *request) {
 		}
 		r.Status, r.Body = rsp.Status, rsp.Body
 	})
+	if r.Kind == "sub" && r.Status == 200 && !pan {
+		w.mu.Lock()
+		if h := string(subs[r.U].chainHash()); w.lost[h] && !r.genuine {
+			w.obliged[h] = true
+		}
+		w.mu.Unlock()
+	}
 	if pan {
 		r.Panic = msg + "\n" + stack
 	}
